@@ -146,8 +146,7 @@ def shard_b(s, ns, tier, seed):
                     part.ok(core.h64(k), outcome=mx[2].split()[0], sample={'canonical bytes': k.hex(), 'rendering': mx[2].strip()} if len(part.samples) < 3 else None)
                 else:
                     part.n += 1
-                    seg = (' seg=ds' if 0x3e in meta[0] else ' seg=ss' if 0x36 in meta[0] else ' seg') if set(meta[0]) & {0x26, 0x2e, 0x36, 0x3e, 0x64, 0x65} else ''   # ds/ss overrides are canonical only where they change the default segment
-                    part.violation('dir=dis->asm %s%s step=%s' % (S.site(meta), seg, r[0]), '%s (%s): %s' % (k.hex(), mx[2].strip(), r[1]),
+                    part.violation('dir=dis->asm %s step=%s' % (S.site(meta), r[0]), '%s (%s): %s' % (k.hex(), mx[2].strip(), r[1]),
                                    {'bytes': k.hex()}, size=len(meta[0]) * 1000 + meta[3])
     return part
 
